@@ -66,6 +66,35 @@ CHECKS = {
     note=('the connection KERNELS (kC*.pyx, stiffener models) are not yet proved against the mismatch-energy Hessian: only their call sites are under contract; '
           'BladeStiff1D/2D not yet under contract; 6 known findings (coupling block lost when p1 comes after p2)'),
     technique='contracts + symbolic execution of the Python ast; exact normal form'),
+ 'C16': dict(
+    category='proof',
+    text=('fk0, fk0_cyl, fkG0, fkG0_cyl of the 17 registered classical / isotropic / first-order-shear linear shell modules are extracted from the .pyx text and '
+          'executed symbolically (generic series indices, generic meridian section, symbolic ABD/ABDE, geometry and loads).  Classical models: for every pair of '
+          'non-prescribed amplitudes and every index case the emitted sum is proved to be the section integral of e_A^T F e_B r with e_A the linear strain vector read '
+          'off the model\'s own cfstrain_donnell / cfstrain_sanders (d/dxb of the closed form == integrand, value 0 at xb = xa; theta integral by orthogonality), which '
+          'also gives symmetry and positive semi-definiteness (Gram form).  fsdt_donnell_* and clpt_donnell_bcn: Gram representation with the Donnell operator applied '
+          'to the model\'s own cfuvw field.  Every model: fk0_cyl / fkG0_cyl equal the cone kernels at alpha = 0 summed over the sections; fkG0 entries are homogeneous '
+          'linear forms in (Fc, P, T); iso_ kernels equal the general kernels with the isotropic ABD of ConeCyl._rebuild; no division by zero under the guards; no read '
+          'of a local before its assignment in the iteration.'),
+    design_ref='DESIGN.md section 10.6 (C16)',
+    note=('cone matrices: stated for the kernel\'s own quadrature (radius frozen per meridian section; exact for cylinders); fsdt_sanders_bcn has no strain function '
+          'and no Gram representation at hand: its positive semi-definiteness is not decided; fk0edges and the Python method ConeCyl._calc_linear_matrices are not yet '
+          'under contract; the geier1997/shadmehri2012 modules are not covered; 60 known findings in the two fsdt bcn modules; the compiled extensions cannot be rebuilt '
+          'here, so numeric replays show the installed binary'),
+    technique='contracts + symbolic execution of the extracted .pyx (generic-iteration schema, local path exploration); trigonometric normal form; formal differentiation; z3 for index cases and divisors'),
+ 'C18': dict(
+    category='proof',
+    text=('ConeCyl._rebuild is executed symbolically for the five admissible input subsets (cone and cylinder): H = L cos(alpha), r1 = r2 + L sin(alpha), inputs '
+          'preserved, trigonometric constants, Nxxtop[0] = Fc/(2 pi r2 cos(alpha)).  ConeCyl.calc_fext is executed symbolically with the real fg of the model\'s commons '
+          'module for 17 models x {pdC} x {pdT}: every entry equals the virtual work of point forces, harmonic axial line load, pressure and torque on the basis '
+          'functions that cfuvw of the same module reports, incremental parts times the load factor, prescribed shortening/twist as -ck*Kuk[:,k]; the amplitude layout of '
+          'cfuvw/fg equals modelDB.  calc_full_c is executed symbolically for all admissible sets of prescribed amplitudes.'),
+    design_ref='DESIGN.md section 10.6 (C18)',
+    note=('calc_fext and calc_full_c: symbolic in every load, position, geometry and factor but for CONCRETE series orders (2,2,2) / vector lengths 12, 21 -- bounded in '
+          'the orders, listed as such in the evidence; exclude_dofs_matrix: bounded run-time stand-in (random COO matrices); ConeCyl.static itself rests on C04/C09 '
+          '(Analysis.static, solve); the coupling of the always-prescribed third amplitude with the j2 = 1 terms is absent from the kernels (k0uk[:,2] == 0), so no '
+          'right-hand-side term exists for a non-zero load-asymmetry amplitude: recorded as an observation in DESIGN, not decided here'),
+    technique='contracts + symbolic execution of the Python ast and of the extracted .pyx field functions; exact normal form; symbolic integration by parts; bounded stand-ins labelled'),
  'C07': dict(
     category='proof',
     text=('Panel.add_force/calc_fext and PanelAssembly.calc_fext are executed symbolically (real constructors, symbolic positions/components/load factor): every force '
